@@ -136,7 +136,9 @@ Record JT (ws : list worker) (tqi : list Z) (tb : list (list instr)) (tk : list 
   jt_ctb : forall i, In i ct -> (i < length tb)%nat;
   jt_suf : forall w k i rest, nth_error ws w = Some k -> k_task k = Some (i, rest) ->
            body_outcome rest = body_outcome (nth i tb []) /\ (length rest <= length (nth i tb []))%nat;
-  jt_fin : forall i r, tt_fin (tkn tk i) = Some r -> r = body_outcome (nth i tb [])
+  jt_fin : forall i r, tt_fin (tkn tk i) = Some r -> r = body_outcome (nth i tb []);
+  jt_ccnd : NoDup cc;
+  jt_ccb : forall v, In v cc -> (v < length ws)%nat
 }.
 
 (** * waits and results *)
